@@ -158,11 +158,16 @@ def replay(ctx, path):
         print('(no case line in this replay file: it names the theorem / table rows that no longer check)')
         return 1
     bad = 0
+    # a check module may say which fields of a result line take part in the comparison (`replay_proj`)
+    rproj = getattr(load_check(ctx.prop), 'replay_proj', None)
     for c, g, l in R.replay_cases(ctx, lines):
         print(c)
         print('  implementation:', g)
         print('  model/spec:    ', l)
-        if R.parse_res(g).get('_raw', '').split()[2:] != R.parse_res(l).get('_raw', '').split()[2:]:
+        if rproj is not None:
+            if rproj(R.parse_res(g)) != rproj(R.parse_res(l)):
+                bad += 1
+        elif R.parse_res(g).get('_raw', '').split()[2:] != R.parse_res(l).get('_raw', '').split()[2:]:
             bad += 1
     print('differs' if bad else 'agrees')
     return 1 if bad else 0
